@@ -102,6 +102,9 @@ where
         .regs
         .set_sp(u16::from_le_bytes([header[23], header[24]]));
     // interrupt mode
+    if header[25] & SNA_INTERRUPT_MODE_MASK > 2 {
+        return Err(crate::error::SnapshotLoadError::InvalidSNAFile.into());
+    }
     emulator.cpu.set_im(header[25] & SNA_INTERRUPT_MODE_MASK);
     // Border color
     emulator
